@@ -4,6 +4,7 @@ import (
 	"go/ast"
 	"go/token"
 	"go/types"
+	"strings"
 )
 
 func init() { register("C03", rulesC03, deepC03) }
@@ -413,6 +414,8 @@ func rulesC03(c *Ctx) {
 		}
 		c.Pin("SSE 202 sites", m, 1)
 	})
+
+	c.Import("R-C03-8", "a resumed stream does not hand the client older messages after newer ones: on resume the stream's index is re-based to the position actually replayed (live ids continue from there)", "C08", "R-C08-2", func(k string) bool { return strings.HasPrefix(k, "lastIdx") || strings.HasPrefix(k, "acquireStream") })
 
 	c.Rule("R-C03-7", "the messages of one JSON-RPC batch reach the reader in wire order: decoded by appending in slice order, queued as the tail msgs[1:], consumed from the head, published to the session channel in slice order", func() {
 		isSlice := func(f *Func, e ast.Expr) bool {
